@@ -385,7 +385,7 @@ func cmdCheck(args []string) {
 			funcs[f] += n
 		}
 		bounds = append(bounds, map[string]interface{}{"harness": spec.Name, "unwind": hr.Spec.Unwind, "max_paths": hr.Spec.MaxPaths, "bounds": spec.Bounds,
-			"paths": hr.Paths, "status": hr.Status, "wall_s": round2(hr.WallS), "queries": hr.Queries})
+			"paths": hr.Paths, "status": hr.Status, "wall_s": round2(hr.WallS), "queries": hr.Queries, "solver_time_s": round2(hr.SolverS)})
 		for st, n := range hr.Status {
 			if st != "ok" && st != "infeasible" && n > 0 {
 				inconclusive = append(inconclusive, fmt.Sprintf("%s: %d paths %s (%s)", spec.Name, n, st, strings.Join(hr.Msgs, " | ")))
@@ -588,6 +588,7 @@ func cmdCheck(args []string) {
 		"obligations":                   totalAsserts,
 		"discharged_unsat":              totalUnsat,
 		"solver_queries":                totalQueries,
+		"solver_time_s":                 round2(solverS),
 		"solver_unknown":                totalUnknown,
 		"solver":                        *solver + " (per-query timeout 6 s), fallback for unknown: one-shot cvc5 --solve-bv-as-int=sum",
 		"solver_fallback_queries":       atomic.LoadInt64(&fallbackTotal),
